@@ -371,3 +371,320 @@ Proof.
   - symmetry. exact (eqh_events _ _ E).
   - rewrite EN, <- En, Z2Nat.id by exact P. reflexivity.
 Qed.
+
+(* ---------- where run() returns ---------- *)
+
+Definition stop_ok (m : module) (di : dbginfo) (bps : list Z) (t : tbp) (r : rres) : Prop :=
+  match r with
+  | RDone x' => finished m (ms x') = true
+  | RBp x' (HitUser a) => pc (ms x') = a /\ In a bps /\ mlast x' = Some (HitUser a)
+  | RBp x' HitTemp =>
+    user_hit bps (pc (ms x')) = None /\
+    match t with
+    | TNoTemp => False
+    | TNext a => pc (ms x') = a
+    | TStep stmt => exists r, find_nonempty m di (pc (ms x')) = Ok (Some r) /\ stmt_neq (Some r) stmt = true
+    end
+  | _ => True
+  end.
+
+Lemma user_hit_some bps p a : user_hit bps p = Some a -> p = a /\ In a bps.
+Proof.
+  unfold user_hit. intros H. apply find_some in H. destruct H as [H1 H2].
+  apply Z.eqb_eq in H2. split; assumption.
+Qed.
+
+Lemma check_bps_spec m di bps t s h :
+  check_bps m di bps t s = Ok (Some h) ->
+  match h with
+  | HitUser a => pc s = a /\ In a bps
+  | HitTemp =>
+    user_hit bps (pc s) = None /\
+    match t with
+    | TNoTemp => False
+    | TNext a => pc s = a
+    | TStep stmt => exists r, find_nonempty m di (pc s) = Ok (Some r) /\ stmt_neq (Some r) stmt = true
+    end
+  end.
+Proof.
+  unfold check_bps. destruct (user_hit bps (pc s)) as [a|] eqn:U.
+  - intros H. inversion H; subst. apply user_hit_some; exact U.
+  - destruct t as [| stmt | a].
+    + discriminate.
+    + destruct (find_nonempty m di (pc s)) as [[r|] | k] eqn:F; try discriminate.
+      destruct stmt as [r0|].
+      * destruct (rec_eqb r r0) eqn:Q; [discriminate |]. intros H. inversion H; subst.
+        split; [reflexivity |]. exists r. split; [reflexivity |]. simpl. rewrite Q. reflexivity.
+      * intros H. inversion H; subst. split; [reflexivity |]. exists r. split; reflexivity.
+    + destruct (pc s =? a) eqn:Q; [| discriminate]. intros H. inversion H; subst.
+      split; [reflexivity |]. apply Z.eqb_eq; exact Q.
+Qed.
+
+Lemma mtick_shape m x : match mtick m x with RBp _ _ | RFuel _ => False | _ => True end.
+Proof. unfold mtick. destruct (tick m (ms x)); exact I. Qed.
+
+Lemma run_loop_stop m di bps t : forall fuel x, stop_ok m di bps t (run_loop m di bps t fuel x).
+Proof.
+  induction fuel; intros x; simpl; [exact I |].
+  destruct (halted (ms x)) eqn:Hh.
+  - simpl. unfold finished. rewrite Hh. reflexivity.
+  - destruct (pc (ms x) >=? code_len m) eqn:Hp.
+    + simpl. unfold finished. simpl. rewrite Hp. first [reflexivity | apply orb_true_r].
+    + pose proof (mtick_shape m x) as Sh.
+      destruct (mtick m x) as [x' | x' h | k x' | x' | x']; simpl; try exact I; try contradiction.
+      destruct (check_bps m di bps t (ms x')) as [[h|] | k] eqn:C; simpl; try exact I.
+      * pose proof (check_bps_spec m di bps t (ms x') h C) as Sp.
+        destruct h as [a|]; simpl.
+        -- destruct Sp as [S1 S2]. split; [exact S1 |]. split; [exact S2 | reflexivity].
+        -- exact Sp.
+      * apply IHfuel.
+Qed.
+
+Lemma cpu_run_stop m di bps t fuel x : stop_ok m di bps t (cpu_run m di bps t fuel x).
+Proof. unfold cpu_run. apply run_loop_stop. Qed.
+
+(* ---------- T4: continue returns halted or at a breakpoint ---------- *)
+
+Lemma breakpoint_stops_only_at_bp m di fuel d :
+  d_status d = Live -> blocked (d_st d) = false ->
+  let d' := exec_cmd m di fuel d CContinue in
+  d_status d' = Live ->
+  (finished m (d_st d') = true /\ d_msgs d' = []) \/
+  (In (pc (d_st d')) (d_bps d) /\ d_msgs d' = [MHit] /\ mlast (d_m d') = Some (HitUser (pc (d_st d')))).
+Proof.
+  intros L B d' L'. unfold d', exec_cmd in *. rewrite L, B in *.
+  pose proof (cpu_run_stop m di (d_bps d) TNoTemp fuel (d_m d)) as S.
+  destruct (cpu_run m di (d_bps d) TNoTemp fuel (d_m d)) as [x | x [a|] | k x | x | x]; simpl in *;
+    try discriminate.
+  - left. split; [exact S | reflexivity].
+  - right. destruct S as [S1 [S2 S3]]. unfold d_st. simpl. rewrite S1. repeat split; assumption.
+  - destruct S as [_ []].
+Qed.
+
+(* ---------- T5: delbr ---------- *)
+
+Lemma remove_first_count a l :
+  count_occ Z.eq_dec (remove_first a l) a = pred (count_occ Z.eq_dec l a).
+Proof.
+  induction l as [|x l IH]; simpl; [reflexivity |].
+  destruct (x =? a) eqn:Q.
+  - apply Z.eqb_eq in Q. subst. destruct (Z.eq_dec a a); [reflexivity | contradiction].
+  - apply Z.eqb_neq in Q. simpl. destruct (Z.eq_dec x a); [contradiction | exact IH].
+Qed.
+
+Lemma remove_first_count_other a b l : a <> b ->
+  count_occ Z.eq_dec (remove_first a l) b = count_occ Z.eq_dec l b.
+Proof.
+  intros N. induction l as [|x l IH]; simpl; [reflexivity |].
+  destruct (x =? a) eqn:Q.
+  - apply Z.eqb_eq in Q. subst. destruct (Z.eq_dec a b); [contradiction | reflexivity].
+  - simpl. destruct (Z.eq_dec x b); [rewrite IH; reflexivity | exact IH].
+Qed.
+
+Lemma delbr_removes di l d r :
+  d_status d = Live -> 0 <= l -> resolve_line di l = Some r ->
+  let d' := exec_cmd (mkModule [] [] [] 0 None) di O d (CDelbr l) in
+  let a := r_start r in
+  count_occ Z.eq_dec (d_bps d') a = pred (count_occ Z.eq_dec (d_bps d) a) /\
+  (forall b, b <> a -> count_occ Z.eq_dec (d_bps d') b = count_occ Z.eq_dec (d_bps d) b) /\
+  d_m d' = d_m d.
+Proof.
+  intros L P R d' a. unfold d', exec_cmd, do_delbr. rewrite L.
+  assert (Q : (l <? 0) = false) by (apply Z.ltb_ge; exact P). rewrite Q, R.
+  destruct (existsb (fun a0 => a0 =? r_start r) (d_bps d)) eqn:X; simpl.
+  - split; [apply remove_first_count |]. split; [| reflexivity].
+    intros b N. apply remove_first_count_other. intro E. apply N. symmetry. exact E.
+  - split; [| split; [reflexivity | reflexivity]].
+    assert (Z0 : count_occ Z.eq_dec (d_bps d) a = O).
+    { apply count_occ_not_In. intros I. assert (existsb (fun a0 => a0 =? r_start r) (d_bps d) = true).
+      { apply existsb_exists. exists a. split; [exact I | apply Z.eqb_refl]. }
+      congruence. }
+    rewrite Z0. reflexivity.
+Qed.
+
+(* a breakpoint that is not (any longer) in the list never stops continue *)
+Lemma absent_breakpoint_never_stops m di fuel d a :
+  d_status d = Live -> blocked (d_st d) = false -> ~ In a (d_bps d) ->
+  let d' := exec_cmd m di fuel d CContinue in
+  d_status d' = Live -> d_msgs d' = [MHit] -> pc (d_st d') <> a.
+Proof.
+  intros L B NI d' L' M.
+  destruct (breakpoint_stops_only_at_bp m di fuel d L B L') as [[_ E] | [I _]].
+  - fold d' in E. rewrite E in M. discriminate.
+  - intros Q. apply NI. rewrite <- Q. exact I.
+Qed.
+
+(* ---------- how a line breakpoint is resolved ---------- *)
+
+Lemma insert_soff_in r l x : In x (insert_soff r l) <-> x = r \/ In x l.
+Proof.
+  induction l as [|y l IH]; simpl.
+  - split; intros [H | H]; auto; contradiction.
+  - destruct (r_soff r <? r_soff y); simpl.
+    + split; intros [H | H]; auto.
+    + rewrite IH. split; intros H; tauto.
+Qed.
+
+Lemma sort_soff_in_gen di : forall acc x,
+  In x (fold_left (fun acc r => insert_soff r acc) di acc) <-> In x di \/ In x acc.
+Proof.
+  induction di as [|r di IH]; intros acc x; simpl.
+  - tauto.
+  - rewrite IH, insert_soff_in.
+    split; [intros [H | [H | H]] | intros [[H | H] | H]]; subst; auto.
+Qed.
+
+Lemma sort_soff_in di x : In x (sort_soff di) <-> In x di.
+Proof. unfold sort_soff. rewrite sort_soff_in_gen. simpl. tauto. Qed.
+
+Fixpoint sorted_soff (l : list srec) : Prop :=
+  match l with
+  | [] => True
+  | x :: t => (forall y, In y t -> r_soff x <= r_soff y) /\ sorted_soff t
+  end.
+
+Lemma insert_soff_sorted r l : sorted_soff l -> sorted_soff (insert_soff r l).
+Proof.
+  induction l as [|y l IH]; simpl; intros S.
+  - split; [intros ? [] | exact I].
+  - destruct S as [S1 S2]. destruct (r_soff r <? r_soff y) eqn:Q; simpl.
+    + apply Z.ltb_lt in Q. split; [| split; assumption].
+      intros z [-> | Hz]; [lia | specialize (S1 z Hz); lia].
+    + apply Z.ltb_ge in Q. split; [| apply IH; exact S2].
+      intros z Hz. apply insert_soff_in in Hz. destruct Hz as [-> | Hz]; [exact Q | apply S1; exact Hz].
+Qed.
+
+Lemma sort_soff_sorted di : sorted_soff (sort_soff di).
+Proof.
+  unfold sort_soff. assert (G : forall acc, sorted_soff acc ->
+    sorted_soff (fold_left (fun acc r => insert_soff r acc) di acc)).
+  { induction di as [|r di IH]; intros acc S; simpl; [exact S |]. apply IH. apply insert_soff_sorted. exact S. }
+  apply G. exact I.
+Qed.
+
+Lemma find_sorted_first f l r : sorted_soff l -> find f l = Some r ->
+  In r l /\ f r = true /\ forall y, In y l -> f y = true -> r_soff r <= r_soff y.
+Proof.
+  induction l as [|x l IH]; simpl; intros S H; [discriminate |].
+  destruct S as [S1 S2]. destruct (f x) eqn:Fx.
+  - inversion H; subst. split; [left; reflexivity |]. split; [exact Fx |].
+    intros y [-> | Hy] _; [lia | apply S1; exact Hy].
+  - destruct (IH S2 H) as [I1 [I2 I3]]. split; [right; exact I1 |]. split; [exact I2 |].
+    intros y [-> | Hy] Fy; [congruence | apply I3; assumption].
+Qed.
+
+(* the address of `break L`: a statement record at or after line L with at least
+   one instruction, the first such in source order *)
+Lemma resolve_line_spec di l r :
+  resolve_line di l = Some r ->
+  In r di /\ l <= r_line r /\ 0 < rec_size r /\
+  forall y, In y di -> l <= r_line y -> 0 < rec_size y -> r_soff r <= r_soff y.
+Proof.
+  unfold resolve_line. intros H.
+  destruct (find_sorted_first _ _ _ (sort_soff_sorted di) H) as [I1 [I2 I3]].
+  apply andb_true_iff in I2. destruct I2 as [A B].
+  split; [apply sort_soff_in; exact I1 |]. split; [apply Z.geb_le in A; lia |]. split; [apply Z.gtb_lt in B; lia |].
+  intros y Iy Ly Sy. apply I3; [apply sort_soff_in; exact Iy |].
+  apply andb_true_iff. split; [apply Z.geb_le; lia | apply Z.gtb_lt; lia].
+Qed.
+
+Lemma break_sets_resolved di l d r :
+  d_status d = Live -> 0 <= l -> resolve_line di l = Some r ->
+  let d' := exec_cmd (mkModule [] [] [] 0 None) di O d (CBreak l) in
+  d_bps d' = d_bps d ++ [r_start r] /\ d_m d' = d_m d.
+Proof.
+  intros L P R d'. unfold d', exec_cmd, do_break. rewrite L.
+  assert (Q : (l <? 0) = false) by (apply Z.ltb_ge; exact P). rewrite Q, R. split; reflexivity.
+Qed.
+
+(* ---------- T6: step / next progress ---------- *)
+
+Lemma step_progress m di fuel d stmt :
+  d_status d = Live -> blocked (d_st d) = false ->
+  find_nonempty m di (pc (d_st d)) = Ok stmt ->
+  let d' := exec_cmd m di fuel d CStep in
+  d_status d' = Live ->
+  finished m (d_st d') = true \/
+  In (pc (d_st d')) (d_bps d) \/
+  exists r, find_nonempty m di (pc (d_st d')) = Ok (Some r) /\ stmt_neq (Some r) stmt = true.
+Proof.
+  intros L B F d' L'. unfold d', exec_cmd, do_step in *. rewrite L, B, F in *.
+  pose proof (cpu_run_stop m di (d_bps d) (TStep stmt) fuel (d_m d)) as S.
+  destruct (cpu_run m di (d_bps d) (TStep stmt) fuel (d_m d)) as [x | x [a|] | k x | x | x]; simpl in *;
+    try discriminate.
+  - left. exact S.
+  - right. left. destruct S as [S1 [S2 _]]. unfold d_st. simpl. rewrite S1. exact S2.
+  - right. right. exact (proj2 S).
+Qed.
+
+Lemma cpu_next_stop m di bps fuel x :
+  match cpu_next m di bps fuel x with
+  | RBp x' (HitUser a) => pc (ms x') = a /\ In a bps
+  | RBp _ HitTemp => False
+  | _ => True
+  end.
+Proof.
+  unfold cpu_next.
+  destruct ((pc (ms x) <? 0) || (pc (ms x) >=? code_len m)); [exact I |].
+  destruct (decode (skipn (Z.to_nat (pc (ms x))) (m_code m))) as [| | i size]; try exact I.
+  pose proof (mtick_shape m x) as Sh.
+  destruct i; try (destruct (mtick m x) as [? | ? [?|] | | |]; try contradiction; exact I).
+  - pose proof (cpu_run_stop m di bps (TNext (pc (ms x) + size)) fuel x) as S.
+    destruct (cpu_run m di bps (TNext (pc (ms x) + size)) fuel x) as [x' | x' [a|] | | |]; try exact I.
+    destruct S as [S1 [S2 _]]. split; assumption.
+  - destruct (nthZ (m_literals m) idx); [| exact I].
+    destruct (mtick m x) as [? | ? [?|] | | |]; try contradiction; exact I.
+Qed.
+
+(* what next() guarantees when it skips a call: control is at the return
+   address - NOT that the activation is the one the command was issued in *)
+Lemma cpu_next_call_returns m di bps fuel x t size x' :
+  (pc (ms x) <? 0) || (pc (ms x) >=? code_len m) = false ->
+  decode (skipn (Z.to_nat (pc (ms x))) (m_code m)) = DOk (ICall t) size ->
+  cpu_next m di bps fuel x = RDone x' ->
+  finished m (ms x') = true \/ pc (ms x') = pc (ms x) + size.
+Proof.
+  intros R D. unfold cpu_next. rewrite R, D.
+  pose proof (cpu_run_stop m di bps (TNext (pc (ms x) + size)) fuel x) as S.
+  destruct (cpu_run m di bps (TNext (pc (ms x) + size)) fuel x) as [x1 | x1 [a|] | | |];
+    intros H; inversion H; subst.
+  - left. exact S.
+  - right. exact (proj2 S).
+Qed.
+
+Lemma next_loop_stop m di bps stmt fuel0 : forall fuel x,
+  match next_loop m di bps stmt fuel0 fuel x with
+  | RDone x' => halted (ms x') = true \/
+                exists new, find_nonempty m di (pc (ms x')) = Ok new /\ stmt_neq new stmt = true
+  | RBp x' (HitUser a) => pc (ms x') = a /\ In a bps
+  | RBp _ HitTemp => False
+  | _ => True
+  end.
+Proof.
+  induction fuel; intros x; simpl; [exact I |].
+  destruct (halted (ms x)) eqn:Hh; [left; exact Hh |].
+  pose proof (cpu_next_stop m di bps fuel0 x) as S.
+  destruct (cpu_next m di bps fuel0 x) as [x' | x' [a|] | k x' | x' | x']; try exact I; try exact S.
+  destruct (find_nonempty m di (pc (ms x'))) as [new | k] eqn:F; [| exact I].
+  destruct (stmt_neq new stmt) eqn:Q.
+  - right. exists new. split; assumption.
+  - apply IHfuel.
+Qed.
+
+Lemma next_progress m di fuel d stmt :
+  d_status d = Live -> blocked (d_st d) = false ->
+  find_nonempty m di (pc (d_st d)) = Ok stmt ->
+  let d' := exec_cmd m di fuel d CNext in
+  d_status d' = Live ->
+  halted (d_st d') = true \/
+  In (pc (d_st d')) (d_bps d) \/
+  exists new, find_nonempty m di (pc (d_st d')) = Ok new /\ stmt_neq new stmt = true.
+Proof.
+  intros L B F d' L'. unfold d', exec_cmd, do_next in *. rewrite L, B, F in *.
+  pose proof (next_loop_stop m di (d_bps d) stmt fuel fuel (d_m d)) as S.
+  destruct (next_loop m di (d_bps d) stmt fuel fuel (d_m d)) as [x | x [a|] | k x | x | x]; simpl in *;
+    try discriminate.
+  - destruct S as [S | S]; [left; exact S | right; right; exact S].
+  - right. left. destruct S as [S1 S2]. unfold d_st. simpl. rewrite S1. exact S2.
+  - contradiction.
+Qed.
